@@ -307,7 +307,15 @@ def header_one(req, name):
 
 
 def tokens(value):
-    return [t.strip().lower() for t in value.split(",")] if value is not None else []
+    """comma-separated header tokens, compared the way HTTP compares them: ASCII letters case-insensitively, nothing else
+    folded (U+212A KELVIN SIGN is not 'k'), only space and tab trimmed (U+00A0 / U+2003 are not white space here)."""
+    if value is None:
+        return []
+    out = []
+    for t in value.split(","):
+        t = t.strip(" \t")
+        out.append(t.lower() if t.isascii() else "\x00non-ascii\x00" + t)
+    return out
 
 
 def build_response(status=101, reason="Switching Protocols", headers=(), version="HTTP/1.1"):
